@@ -12,6 +12,15 @@ func verifHook(point string, f *File, arg string) {
 	}
 }
 
+// VerifHookObj is like VerifHook for points that identify Code values (a Dict and one of its keys).
+var VerifHookObj func(point string, f *File, a, b interface{})
+
+func verifHookObj(point string, f *File, a, b interface{}) {
+	if h := VerifHookObj; h != nil {
+		h(point, f, a, b)
+	}
+}
+
 // VerifState exposes a copy of the File's import bookkeeping to the verification
 // harness: every entry is {name, "alias" or ""}.
 func VerifState(f *File) (name, path, prefix string, imports, hints map[string][2]string) {
